@@ -276,6 +276,27 @@ def other_observations(tier):
                             '_vec': {'kind': kind, 'route': 'cli --version 7', 'opts': sorted(kw)}})
             finally:
                 shutil.rmtree(tmp, ignore_errors=True)
+    # falsy flag values on the command line (0, empty string): they are values, not "flag absent"
+    for kind, flags, kw in (('svg', ['--title', ''], {'title': ''}), ('svg', ['--desc', ''], {'desc': ''}), ('svg', ['--svgid', ''], {'svgid': ''}),
+                            ('svg', ['--svgclass', ''], {'svgclass': ''}), ('svg', ['--lineclass', ''], {'lineclass': ''}), ('svg', ['--border', '0'], {'border': 0}),
+                            ('png', ['--border', '0'], {'border': 0}), ('png', ['--dpi', '0'], {'dpi': 0}), ('txt', ['--border', '0'], {'border': 0}),
+                            ('pdf', ['--border', '0', '--scale', '1'], {'border': 0, 'scale': 1}), ('eps', ['-b', '0'], {'border': 0}),
+                            ('xbm', ['--border', '0'], {'border': 0}), ('pbm', ['--border', '0', '--scale', '2'], {'border': 0, 'scale': 2})):
+        tmp = tempfile.mkdtemp(prefix='c12z_', dir=work)
+        try:
+            pth = os.path.join(tmp, 'out.' + kind)
+            status, out, err, tb = run_cli(flags + ['--output', pth, CONTENT])
+            ok = status == 0 and os.path.exists(pth)
+            got = digest(normalise(kind, open(pth, 'rb').read())) if ok else failure(ValueError(str(status)) if not tb else RuntimeError(str(status)))
+            try:
+                ref = digest(normalise(kind, save_stream(qr, kind, kw)))
+            except Exception as e:  # noqa
+                ref = failure(e)
+            obs.append({'family': 'route', 'kind': kind, 'route': 'cli', 'opts': sorted(kw), 'ref_given': sorted(kw), 'ref_forced': [], 'prefix_ok': True,
+                        'exit': status if isinstance(status, int) else 99, 'got': got, 'ref': ref,
+                        '_vec': {'kind': kind, 'route': 'cli ' + ' '.join(repr(f) for f in flags), 'opts': sorted(kw)}})
+        finally:
+            shutil.rmtree(tmp, ignore_errors=True)
     # the command line spells "no colour" as transparent / trans
     for kind in ('png', 'svg', 'xpm', 'pam'):
         for flags, kw in ((['--light', 'transparent'], {'light': None}), (['--light', 'trans', '--dark', 'darkred'], {'light': None, 'dark': 'darkred'}),
@@ -303,6 +324,27 @@ def other_observations(tier):
         o = route_obs_extra(vec, extra)
         o['_what'] = f'svg via data_uri with {extra}'
         obs.append(o)
+    # falsy option values (0, '', False) through every route: a route that forwards options with `if value:` / `value or default` loses them
+    falsy = {'svg': [{'border': 0}, {'title': ''}, {'desc': ''}, {'svgclass': ''}, {'lineclass': ''}, {'svgid': ''}, {'unit': ''}, {'xmldecl': False, 'border': 0},
+                     {'omitsize': False}, {'svgns': False, 'nl': False}, {'dark': '#000', 'light': None}],
+             'png': [{'border': 0}, {'compresslevel': 0}, {'dpi': 0}, {'border': 0, 'scale': 1}], 'pdf': [{'border': 0}, {'compresslevel': 0}],
+             'eps': [{'border': 0}], 'txt': [{'border': 0}], 'pbm': [{'border': 0}, {'plain': False}], 'xbm': [{'border': 0}], 'tex': [{'border': 0}, {'url': ''}],
+             'pam': [{'border': 0}], 'ppm': [{'border': 0}], 'xpm': [{'border': 0}]}
+    for kind, sets in falsy.items():
+        routes = [('path', []), ('path_upper_ext', []), ('stream', [])]
+        if kind == 'svg':
+            routes += [('svgz_file', []), ('inline', ['xmldecl_false', 'svgns_false', 'nl_false']), ('data_uri', ['xmldecl_false', 'nl_false'])]
+        if kind == 'png':
+            routes += [('data_uri', [])]
+        for extra in sets:
+            for route, forced in routes:
+                if route == 'inline' and set(extra) & {'xmldecl', 'svgns', 'nl'}:
+                    continue
+                f2 = [f for f in forced if FORCED[f][0] not in extra]
+                vec = {'kind': kind, 'route': route, 'opts': [], 'given': [], 'forced': f2}
+                o = route_obs_extra(vec, extra)
+                o['_what'] = f'{kind} via {route} with {extra}'
+                obs.append(o)
     # scale given as int, integral float and fractional float through every route of the kinds that accept a float
     for sc in (2, 2.0, 10.0, 1.0, 2.5, 0.5):
         for kind, routes in (('svg', (('path', []), ('stream', []), ('svgz_file', []), ('svgz_stream', []), ('inline', ['xmldecl_false', 'svgns_false', 'nl_false']),
